@@ -165,6 +165,47 @@ func IsSubslice(sub, whole []byte) bool {
 	return s0 >= w0 && s0+uintptr(len(sub)) <= w0+uintptr(len(whole))
 }
 
+// Fork returns c; under the engine the path forks on c (never merged into an
+// ite), so the result is concrete on each path.
+func Fork(c bool) bool { return c }
+
+// Ite* select a value without forking the path.
+func IteI64(c bool, a, b int64) int64 {
+	if c {
+		return a
+	}
+	return b
+}
+func IteInt(c bool, a, b int) int {
+	if c {
+		return a
+	}
+	return b
+}
+func IteU64(c bool, a, b uint64) uint64 {
+	if c {
+		return a
+	}
+	return b
+}
+func IteByte(c bool, a, b byte) byte {
+	if c {
+		return a
+	}
+	return b
+}
+func IteBool(c bool, a, b bool) bool {
+	if c {
+		return a
+	}
+	return b
+}
+
+// And / Or / Implies: boolean connectives that never fork.
+func And(a, b bool) bool     { return a && b }
+func Or(a, b bool) bool      { return a || b }
+func Implies(a, b bool) bool { return !a || b }
+
 // Symbolic is true under the engine and false natively.
 func Symbolic() bool { return false }
 
